@@ -72,6 +72,9 @@ Variable cache_empty : cache_t.
 Variable cache_add : cache_t -> pkt -> cache_t.
 Variable cache_snap : cache_t -> list pkt.
 Variable ncons : nat.
+(* Consumer.Consume of consumer c panics on its n-th call (0 = never); the goroutine recovers,
+   detaches and closes *)
+Variable panic_at : nat -> nat.
 
 Record st := {
   s_ok : bool;                 (* status == StreamOK *)
@@ -160,13 +163,14 @@ Definition finish (k : cons) : cons :=
 
 (* the loop test `for !c.closed`, then either the next parking point or the exit path.
    Returns the consumer and the change of the shared counter. *)
+(* the deferred handler of consume(): StopConsume -> Remove: Load (or LoadAndDelete) *)
+Definition exit_path (k : cons) (sent : nat) : cons :=
+  if c_reg k then
+    set_pc (if v_atomic V then set_reg k false sent else k) CExitLoaded
+  else finish k.
+
 Definition loop_test (k : cons) (sent : nat) : cons :=
-  if c_closed k then
-    (* deferred: StopConsume -> Remove: Load (or LoadAndDelete) *)
-    if c_reg k then
-      set_pc (if v_atomic V then set_reg k false sent else k) CExitLoaded
-    else finish k
-  else set_pc k CPop.
+  if c_closed k then exit_path k sent else set_pc k CPop.
 
 (* ---- steps ---- *)
 Fixpoint send_all (n : nat) (f : nat -> cons) (p : pkt) : nat -> cons :=
@@ -311,7 +315,9 @@ Definition step_cons (s : st) (c : nat) : option st :=
                    c_out := c_out k ++ [p]; c_disc := c_disc k; c_closes := c_closes k;
                    c_pushed := c_pushed k; c_prefill := c_prefill k; c_regat := c_regat k;
                    c_unregat := c_unregat k; c_keep := c_keep k |} in
-      Some (set_cs s (upd (s_cs s) c (loop_test k1 sent)))
+      if Nat.eqb (S (length (c_out k))) (panic_at c)
+      then Some (set_cs s (upd (s_cs s) c (exit_path k1 sent)))      (* Consume panicked: recovered, detach *)
+      else Some (set_cs s (upd (s_cs s) c (loop_test k1 sent)))
   | CGot None => Some (set_cs s (upd (s_cs s) c (loop_test k sent)))
   | CExitLoaded =>
       let k1 := if v_atomic V then k else set_reg k false sent in
